@@ -105,6 +105,8 @@ class CallMixin:
             if exit_ is None:
                 yield "ok", NONE, s2
             elif exit_[0] == "return":
+                if func.cls is None and func.parent is None:
+                    self.emit(s2, fx, "RET", node, func=func.qual, val=exit_[1])
                 yield "ok", exit_[1], s2
             elif exit_[0] == "raise":
                 yield "raise", exit_[1], s2
@@ -371,6 +373,8 @@ class CallMixin:
             return
         if isinstance(recv, tuple) and recv[0] in ("constobj", "global", "classattr") and name in MUTATORS:
             self.emit(st, fx, "SHAREDMUT", node, obj=recv, name=name)
+        if isinstance(recv, tuple) and recv[0] == "attr" and recv[1] == SELF:
+            self.emit(st, fx, "MCALL", node, obj=recv, name=name, args=tuple(args))
         yield "ok", ("call", f, tuple(args)), st
 
     def _is_deferred(self, t):
